@@ -240,3 +240,16 @@ Proof. reflexivity. Qed.
 Example ex_priv_init_hyps :
   Forall (pinit_ok pwit_names pwit_isset) [IBrand 11; IField 1 (ENum 3); IField 5 (ECall (EId 3) [] OcNone)].
 Proof. repeat constructor. Qed.
+
+(* [c.#p = d] = ... / for (c.#p of ...): the target goes through the wrapper with the setter *)
+Example ex_priv_target_lowered :
+  fst (plower pwit_names all_features (PTarget (EId 7) 2) 0) = HWrapper (PE (EId 7)) 11 (Some 21)
+  /\ fst (plower pwit_names all_features (PTarget (EId 7) 1) 0) = HWrapper (PE (EId 7)) 10 None.
+Proof. split; reflexivity. Qed.
+(* the store through it calls the setter on object 1 (event 9), after whatever ran in between (event 4) *)
+Example ex_priv_target_trace :
+  fst (fst (fst (bind (ptarget pwit_world VUndef pterr pwit_fobj pwit_isset (fst (plower pwit_names all_features (PTarget (EId 7) 2) 0)))
+                      (fun k => bind (bind (eval pwit_world VUndef (ECall (EId 3) [] OcNone)) (fun _ => ret tt))
+                                     (fun _ => lift (k (VNum 5)))) [] pwit_state)))
+  = [(4, [VObj 100; VUndef]); (9, [VObj 1; VNum 5])].
+Proof. reflexivity. Qed.
